@@ -8,7 +8,7 @@
  R4  literal typing: a suffix-less integer literal is narrowed to 32 bits only under a magnitude test
  R5  integer division / modulo has a zero-divisor guard (no SIGFPE while folding)
 """
-from vlib.facts import kids, strip, walk, is_call, call_args, call_object, callee, render, literal
+from vlib.facts import kids, strip, walk, is_call, call_args, call_object, callee, render, literal, noid as noid_
 from vlib.cfg import write_target
 from vlib.work import AnalysisBroken
 
@@ -25,6 +25,16 @@ BINOPS = ["lessThan", "lessThanEq", "equal", "notEqual", "greaterThanEq", "great
           "rightShiftEq", "leftShiftEq"]
 UNOPS = ["not_", "positive", "negative", "tilde", "leftIncrement", "leftDecrement", "rightIncrement", "rightDecrement"]
 P = "occa::primitive::"
+# the C++ operator each table stands for
+CXX_OP = {"not_": "!", "positive": "+", "negative": "-", "tilde": "~", "lessThan": "<", "lessThanEq": "<=", "equal": "==", "notEqual": "!=", "greaterThanEq": ">=",
+          "greaterThan": ">", "and_": "&&", "or_": "||", "mult": "*", "add": "+", "sub": "-", "div": "/", "mod": "%", "bitAnd": "&", "bitOr": "|", "xor_": "^",
+          "rightShift": ">>", "leftShift": "<<", "multEq": "*", "addEq": "+", "subEq": "-", "divEq": "/", "modEq": "%", "bitAndEq": "&", "bitOrEq": "|", "xorEq": "^",
+          "rightShiftEq": ">>", "leftShiftEq": "<<"}
+# (operator, operand class) combinations that are ill-formed in C++ ([expr.unary.op], [expr.mul], [expr.shift], [expr.bit.and] ...): integral operands required
+CXX_ILL_FORMED = {(o, "float") for o in ("~", "%", "&", "|", "^", "<<", ">>")}
+CXX_EQUIV = {"==": {"=="}, "!=": {"!="}}
+# C++ binary operator precedence (smaller binds tighter, [expr] grammar) and the associativity of each level
+CXX_PREC = {"*": 5, "/": 5, "%": 5, "+": 6, "-": 6, "<<": 7, ">>": 7, "<": 9, "<=": 9, ">": 9, ">=": 9, "==": 10, "!=": 10, "&": 11, "^": 12, "|": 13, "&&": 14, "||": 15}
 
 
 def arms_of(sw):
@@ -94,6 +104,10 @@ def run(ctx):
     R.rule("C14-R2", "operator table arm agrees with its tag; tables exhaustive over the scalar tags", floor=300)
     R.rule("C14-R3", "shift result type comes from the left operand", floor=4)
     R.rule("C14-R4", "32-bit narrowing of a suffix-less integer literal is dominated by a magnitude test", floor=2)
+    R.rule("C14-R6", "operator table: relative precedence of the binary operators and associativity of every level agree with the C++ grammar", floor=13)
+    R.rule("C14-R7", "?: converts the selected operand to the common type of its second and third operands", floor=1)
+    R.rule("C14-R8", "#if / #elif operands are widened to intmax_t / uintmax_t before folding", floor=2)
+    R.rule("C14-R9", "the ambiguous spellings + - * & are binary after an operand", floor=1)
     R.rule("C14-R5", "integer division/modulo guarded against a zero divisor and against the overflowing quotient min()/-1", floor=8)
 
     short_circuit(prog, R, "C14-R1")
@@ -122,8 +136,44 @@ def run(ctx):
                     if is_call(x) and callee(x) == P + "to":
                         rt = x.get("csig", "").split("(")[0].strip()
                         got = CTYPE.get(rt, rt)
+                        if "Shift" in name and binary and render(call_object(x), False) == pnames[1]:
+                            # the count of a shift is only promoted: any integer type at least as wide as int, never the left operand's type
+                            okc = got in ("int32_", "uint32_", "int64_", "uint64_")
+                            R.ob("C14-R3", okc, f.q, "arm:%s count to<%s>" % (tag, rt), f.site(x),
+                                 "the count is converted to an integer type of at least int width" if okc else
+                                 "the shift count is converted to %s: with a bool / narrow left operand the count is truncated (`true << 3` folds to 2)" % rt)
+                            continue
                         R.ob("C14-R2", got == tag, f.q, "arm:%s to<%s> on %s" % (tag, rt, render(call_object(x), False)), f.site(x),
                              "operand converted to the arm's type" if got == tag else "the %s arm converts an operand to %s: the operation is done in the wrong type" % (tag, rt))
+            # the arm applies the C++ operator the function stands for, and refuses only what C++ refuses
+            want_op = CXX_OP.get(name)
+            if want_op is not None:
+                errs = any(is_call(x) and callee(x) == "occa::error" for st in sts for x in walk(st))
+                invalid = (want_op, "float" if tag in ("float_", "double_") else "bool" if tag == "bool_" else "int") in CXX_ILL_FORMED
+                applied = set()
+                for st in sts:
+                    for x in walk(st):
+                        if x["k"] in ("BinaryOperator", "CompoundAssignOperator", "UnaryOperator") and x.get("op") and x.get("op") not in ("=",) and not x.get("mac"):
+                            if any(is_call(y) and callee(y) == P + "to" or (y["k"] == "MemberExpr" and "anonymous" in y.get("n", "")) for y in walk(x)):
+                                applied.add(x["op"])
+                key = "arm:%s applies %s" % (tag, want_op)
+                if errs:
+                    R.ob("C14-R2", invalid, f.q, key + " (refused)", f.site(sts[0]),
+                         "C++ rejects `%s` on this operand type as well" % want_op if invalid else
+                         "the %s arm refuses operator `%s`, which C++ defines for this operand type (bool is promoted to int, floating operands of ! && || are converted to bool): a defined constant expression cannot be folded" % (tag, want_op))
+                else:
+                    acceptable = CXX_EQUIV.get(want_op, {want_op})
+                    okop = bool(applied) and (applied <= acceptable or
+                                             (want_op == "==" and applied == {"<=", ">=", "&&"}) or        # a <= b && a >= b: value equality without -Wfloat-equal
+                                             (want_op == "!=" and applied == {"<=", ">=", "&&", "!"}))
+                    if want_op in ("==", "!=") and any(is_call(x) and "areBitwiseEqual" in callee(x) for st in sts for x in walk(st)):
+                        okop = False
+                        applied = applied | {"areBitwiseEqual"}
+                    if want_op == "~" and "!" in applied and "~" not in applied:
+                        okop = False
+                    R.ob("C14-R2", okop, f.q, key, f.site(sts[0]),
+                         "computed with the host operator on operands of the arm's type (promotions are the host compiler's)" if okop else
+                         "the %s arm computes `%s` with %s: not what C++ computes for this operand type (e.g. ~true is -2, 0.0 == -0.0 is true)" % (tag, want_op, sorted(applied) or "nothing"))
                     if x["k"] == "MemberExpr" and x.get("n", "").split("::")[-1] in SCALARS and "anonymous" in x.get("n", ""):
                         mem = x["n"].split("::")[-1]
                         if binary:
@@ -201,6 +251,71 @@ def run(ctx):
         mem = [x["n"].split("::")[-1] for st in sts for x in walk(st) if x["k"] == "MemberExpr" and x.get("n", "").split("::")[-1] in SCALARS]
         R.ob("C14-R2", mem == [tag], tf.q, "to<T>:%s reads member %s" % (tag, mem), tf.site(sts[0]), "reads the member of its own tag" if mem == [tag] else "the %s arm of to<T>() reads union member %s: every conversion of such a value is wrong" % (tag, mem))
 
+    # ---- R6: the operator table against the C++ grammar ----------------------------------------------------------------------------------
+    from vlib.paren import operator_table
+    tab = operator_table(prog)
+    binprec = {sp: pr for (sp, pr, t) in tab.values() if "binaryOperator_t" in t and sp in CXX_PREC}
+    missing = sorted(set(CXX_PREC) - set(binprec))
+    if missing:
+        raise AnalysisBroken("operator table: binary operators %s not found" % missing)
+    ops_ = sorted(CXX_PREC)
+    for i, a_ in enumerate(ops_):
+        for b_ in ops_[i + 1:]:
+            want = (CXX_PREC[a_] > CXX_PREC[b_]) - (CXX_PREC[a_] < CXX_PREC[b_])
+            got = (binprec[a_] > binprec[b_]) - (binprec[a_] < binprec[b_])
+            if want != got:
+                R.ob("C14-R6", False, "occa::lang::op", "precedence:%s vs %s" % (a_, b_), "src/occa/internal/lang/operator.cpp",
+                     "`%s` and `%s` are ordered differently than in C++: `x %s y %s z` groups the other way" % (a_, b_, a_, b_))
+    R.ob("C14-R6", True, "occa::lang::op", "precedence:153 pairs of the 18 binary operators compared", "src/occa/internal/lang/operator.cpp", "relative binding strength as in [expr]", nontrivial=False)
+    assoc = prog.globals.get("occa::lang::op::associativity")
+    if assoc is None or "init" not in assoc:
+        raise AnalysisBroken("op::associativity vanished")
+    levels = [x.get("n", "").split("::")[-1] for x in walk(assoc["init"]) if x["k"] == "DeclRefExpr" and x.get("n", "").endswith("Associative")]
+    if len(levels) < 18:
+        raise AnalysisBroken("op::associativity: %d entries" % len(levels))
+    tern = [pr for (sp, pr, t) in tab.values() if sp in ("?", ":", "?:")]
+    asg = [pr for (sp, pr, t) in tab.values() if sp in ("=", "+=", "-=", "*=", "/=", "%=", "<<=", ">>=", "&=", "|=", "^=")]
+    un = [pr for (sp, pr, t) in tab.values() if sp in ("!", "~") ]
+    for lvl in sorted(set(binprec.values())):
+        ok = levels[lvl] == "leftAssociative"
+        R.ob("C14-R6", ok, "occa::lang::op::associativity", "level %d (%s) groups left to right" % (lvl, " ".join(sorted(o for o in binprec if binprec[o] == lvl))), "src/occa/internal/lang/operator.cpp",
+             "a - b - c is (a - b) - c")
+    for lvl, what in [(x, "assignment") for x in sorted(set(asg))] + [(x, "prefix operators") for x in sorted(set(un))] + [(x, "conditional operator ?:") for x in sorted(set(tern))]:
+        ok = levels[lvl] == "rightAssociative"
+        R.ob("C14-R6", ok, "occa::lang::op::associativity", "level %d (%s) groups right to left" % (lvl, what), "src/occa/internal/lang/operator.cpp",
+             "as in C++" if ok else
+             "level %d (%s) is declared %s; C++ groups it right to left: `1 ? 2 : 0 ? 3 : 4` is folded as `(1 ? 2 : 0) ? 3 : 4` = 3 instead of 2, and `1 ? 0 ? 5 : 6 : 7` does not parse" % (lvl, what, levels[lvl]))
+
+    # ---- R7: the type of a conditional expression -------------------------------------------------------------------------------------
+    te = prog.fn("occa::lang::ternaryOpNode::evaluate")
+    rets = [r for r in te.walk() if r["k"] == "ReturnStmt" and kids(r)]
+    bare = [r for r in rets if strip(kids(r)[0])["k"] == "CXXMemberCallExpr" and callee(strip(kids(r)[0])).endswith("::evaluate")]
+    R.ob("C14-R7", not bare and bool(rets), te.q, "?: result converted to the common type of both branches", te.site(bare[0]) if bare else te.relfile,
+         "the selected value is converted before it is returned" if not bare else
+         "the value of the selected branch is returned as it is: `(true ? 1 : 2.0) / 2` folds to int 0 instead of 0.5, `(true ? -1 : 0u) < 0` to true instead of false "
+         "(C++ applies the usual arithmetic conversions of both branches; the unselected branch contributes its type although it is not evaluated)")
+
+    # ---- R8: controlling expressions are evaluated in intmax_t / uintmax_t ([cpp.cond]) -----------------------------------------------------
+    pp = ctx.program(["src/occa/internal/lang/preprocessor.cpp"], thorough_all=False)
+    lt = pp.fn("occa::lang::preprocessor_t::lineIsTrue")
+    parse = [c_ for c_ in lt.walk() if is_call(c_) and callee(c_).endswith("expressionParser::parse")]
+    if len(parse) != 1:
+        raise AnalysisBroken("lineIsTrue: expressionParser::parse call not found")
+    lcfg = lt.cfg
+    LIN = lcfg.facts_in()
+    for want_t, flag in (("uint64_", "isUnsigned"), ("int64_", "isSigned")):
+        conv = []
+        for x in lt.walk():
+            if is_call(x) and callee(x) == P + "to" and CTYPE.get(x.get("csig", "").split("(")[0].strip()) == want_t:
+                par = [a for a in lt.ancestors(x) if a["k"] in ("ForStmt", "WhileStmt", "CXXForRangeStmt")]
+                fs_ = {(noid_(k), pol) for (k, pol) in lcfg.facts_at(x, LIN)}
+                if par and lcfg.before(par[0], parse[0]) and any(pol and flag in k for (k, pol) in fs_):
+                    conv.append(x)
+        R.ob("C14-R8", bool(conv), lt.q, "%s literals widened to %s before the condition is parsed" % ("unsigned" if flag == "isUnsigned" else "signed", want_t.rstrip("_")),
+             lt.site(conv[0]) if conv else lt.relfile,
+             "every primitive token of the line is converted under %s()" % flag if conv else
+             "the line is handed to the typed folder as it is: `#if 0xFFFFFFFF + 1` and `#if (1 << 31) > 0` are false, `#if -1 == 0xFFFFFFFF` is true (cpp: the opposite)")
+
     # ---- R4 --------------------------------------------------------------------------
     ld = [f for f in prog.fns(P + "load") if "const char *&" in f.d["sig"]]
     if len(ld) != 1:
@@ -233,6 +348,103 @@ def run(ctx):
              "a suffix-less literal is forced into 32 bits whatever its magnitude (2147483648 becomes int32_t -2147483648, 0xFFFFFFFF becomes -1); C++ picks the first type that fits")
     if len(sites) < 2:
         raise AnalysisBroken("primitive::load: narrowing sites not found")
+    # literals written in base 8, 16 or 2 may become unsigned without a u suffix ([lex.icon] table): in both digit branches an unsigned type is
+    # assigned on a path where the u suffix is not known to be present
+    uns = []
+    for n in ld.walk():
+        tgt = None
+        if n["k"] == "CStyleCastExpr" and CTYPE.get(ld.tname(n.get("tw"))) in ("uint32_", "uint64_"):
+            tgt = n
+        if is_call(n) and callee(n) == P + "to" and CTYPE.get(n.get("csig", "").split("(")[0].strip()) in ("uint32_", "uint64_"):
+            tgt = n
+        if tgt is None:
+            continue
+        fs = {(noid_(k), pol) for (k, pol) in c.facts_at(tgt, IN)}
+        if not any(pol and k == "unsigned_" for (k, pol) in fs):
+            branch = "0x/0b" if any(pol and "loadedFormattedValue" in k for (k, pol) in fs) else "plain digits (octal)" if any((not pol) and "loadedFormattedValue" in k for (k, pol) in fs) else "?"
+            uns.append((tgt, branch))
+    for br in ("0x/0b", "plain digits (octal)"):
+        hit = [t for (t, b_) in uns if b_ == br]
+        R.ob("C14-R4", bool(hit), ld.q, "unsigned candidate without u suffix: %s literals" % br, ld.site(hit[0]) if hit else ld.relfile,
+             "int, unsigned int, long, unsigned long - first that fits" if hit else
+             "a %s literal can only become unsigned with a u suffix: 037777777777 is typed long (C++: unsigned int), so 037777777777 + 1 folds to 4294967296 instead of 0u" % br)
+    # an f-suffixed literal is converted from text to float in one rounding
+    fl = [n for n in ld.walk() if n["k"] in ("CStyleCastExpr", "CXXStaticCastExpr", "CXXFunctionalCastExpr") and ld.tname(n.get("tw")) == "float" and
+          any(is_call(x) and (callee(x).split("::")[-1] in ("parseFloat", "parseDouble", "atof", "strtod")) for x in walk(n))]
+    direct = [n for n in ld.walk() if is_call(n) and callee(n).split("::")[-1] in ("strtof", "stof")]
+    R.ob("C14-R4", bool(direct) and not fl, ld.q, "f-suffixed literal rounded once (text -> float)", ld.site((fl or direct or [kids(ld.d["body"])[0]])[0]),
+         "parsed with strtof" if direct and not fl else
+         "the text is parsed to double and the double narrowed to float: just above a float half-way point the two roundings differ from the compiler's single rounding (1.00000005960464478f folds to 1.0f)")
+
+    # ---- R9: + - * & after an operand are binary -------------------------------------------------------------------------------------
+    ep = ctx.program(["src/occa/internal/lang/expr/expressionParser.cpp"], thorough_all=False)
+    ou = ep.fn("occa::lang::expressionParser::operatorIsLeftUnary")
+    ocfg = ou.cfg
+    bools = {}
+    for v in ou.walk():
+        if v["k"] == "VarDecl" and "bool" in ou.tname(v.get("t")) and kids(v):
+            t_ = noid_(render(kids(v)[0], False))
+            if "increment" in t_ and "decrement" in t_ and "unary" not in t_:
+                bools["only_unary"] = v
+            elif "prev" in t_.lower() and "unary" in t_ and "binary" in t_:
+                bools["prev_is_op"] = v
+    if len(bools) != 2:
+        raise AnalysisBroken("operatorIsLeftUnary: the flags for `++/--` and `previous token is an operator` were not found")
+
+    def peval(e, env):
+        e = strip(e)
+        while e["k"] in ("ParenExpr", "ExprWithCleanups"):
+            e = strip(kids(e)[0])
+        lit = literal(e)
+        if isinstance(lit, bool):
+            return lit
+        if e["k"] == "DeclRefExpr" and e.get("d") in env:
+            return env[e["d"]]
+        if e["k"] == "UnaryOperator" and e.get("op") == "!":
+            v = peval(kids(e)[0], env)
+            return None if v is None else (not v)
+        if e["k"] == "ConditionalOperator":
+            cnd = peval(kids(e)[0], env)
+            if cnd is None:
+                a_, b_ = peval(kids(e)[1], env), peval(kids(e)[2], env)
+                return a_ if a_ == b_ else None
+            return peval(kids(e)[1] if cnd else kids(e)[2], env)
+        return None
+    env = {bools["only_unary"]["d"]: False, bools["prev_is_op"]["d"]: False}
+    n9 = 0
+    for r in ou.walk():
+        if r["k"] != "ReturnStmt" or not kids(r) or not ocfg.before(bools["prev_is_op"], r):
+            continue
+        fs = {(noid_(k), pol) for (k, pol) in ocfg.facts_at(r, ocfg.facts_in())}
+        # only the returns that can be reached with an operand on the left and an ambiguous (not ++/--) operator
+        def holds(v, fs=fs):
+            names = {v["n"], noid_(render(kids(v)[0], False)), noid_(render(strip(kids(v)[0]), False))}
+            return any(pol and (k in names or k.strip("()") in {x.strip("()") for x in names}) for (k, pol) in fs)
+        if holds(bools["prev_is_op"]) or holds(bools["only_unary"]):
+            continue
+        env_r = dict(env)
+        # equalities between flags taken on the way here extend the environment: (a == b) false and a false  =>  b true
+        fin = ocfg.facts_in()
+        for (k, pol) in ocfg.facts_at(r, fin):
+            fnode = ocfg.fact_node((k, pol)) if (k, pol) in ocfg._factnode else None
+            if fnode is not None and fnode["k"] == "BinaryOperator" and fnode.get("op") == "==":
+                l_, r_ = strip(kids(fnode)[0]), strip(kids(fnode)[1])
+                for x_, y_ in ((l_, r_), (r_, l_)):
+                    if x_["k"] == "DeclRefExpr" and x_.get("d") in env_r and y_["k"] == "DeclRefExpr" and y_.get("d") not in env_r:
+                        env_r[y_["d"]] = env_r[x_["d"]] if pol else (not env_r[x_["d"]])
+        v = peval(kids(r)[0], env_r)
+        if v is None:
+            # a return whose value depends on something else: acceptable only if it is not reached in this situation
+            txt = noid_(render(kids(r)[0], False))
+            if "chainable" in txt or "prevOpType" in txt:
+                continue      # reached only with an operator on the left (prevOpType describes an operator)
+            raise AnalysisBroken("operatorIsLeftUnary: cannot decide `return %s` for an operand on the left" % txt)
+        n9 += 1
+        R.ob("C14-R9", v is False, ou.q, "operand on the left: `%s` answers binary" % noid_(render(kids(r)[0], False))[:50], ou.site(r),
+             "+ - * & after an operand are binary" if v is False else
+             "with an operand on the left and an operator on the right, + - * & are classified as prefix operators: `6 & ~2`, `2 * -3`, `1 - -2` do not parse (`#if (6 & ~2) == 4` takes the #else branch)")
+    if n9 < 1:
+        raise AnalysisBroken("operatorIsLeftUnary: no return decided for an operand on the left")
 
 
 META = {
